@@ -1,6 +1,5 @@
-(* Props_C16.v — C16: one bad message costs only its own stream (message-level part; the stream-level
-   statements — earlier messages stay applied, streams are independent — are about Framed.v and are
-   added in Props_C16 once the FramedRead model is integrated). *)
+(* Props_C16.v — C16: one bad message costs only its own stream.  Message level (Incoming.v: process_message) first;
+   stream and connection level (Streams.v: IncomingStream over FramedRead + Codec, SelectAll of a connection) at the end. *)
 From BS Require Import Bytes Varint Cid Prefix Hasher Proto Incoming Incoming_proofs Prefix_proofs.
 Open Scope N_scope.
 
@@ -65,3 +64,134 @@ Print Assumptions C16_good_elements_survive.
 Print Assumptions C16_both_parts.
 Print Assumptions C16_server_part_independent.
 Print Assumptions C16_process_message_total.
+
+(* ---- stream level (package H: Streams.v = IncomingStream::poll_next over FramedRead + Codec + process_message, and the
+   SelectAll of a connection with its polling order as the input `schedule`).  What a stream has yielded stays yielded and a
+   stopped stream yields nothing more (prefix_stable); for ANY schedule the messages the behaviour receives from stream k
+   are a prefix of k's own output, equal to it once k is polled enough, and do not depend on what the other streams carry
+   (streams_prefix / stream_of_conn / streams_complete / streams_independent); good frames followed by an undecodable
+   frame or a closing message on stream j, cut anywhere: j yields exactly the good ones, every other stream everything
+   (bad_frame_costs_own_stream).  The no-panic hypothesis `stream_safe` is necessary (…_refuted: a frame of the known class
+   F2 takes the whole connection task down) and fails only inside class F2 (stream_unsafe_only_F2). *)
+From BS Require Import Bytes Varint Varint_proofs Cid Prefix Hasher Proto Incoming Qp ProtoCodec RefProto Frame Framed Codec Frame_proofs Framed_proofs ProtoCodec_proofs RefProto_proofs Codec_proofs Prefix_proofs Incoming_proofs Streams Streams_proofs Streams_props.
+From Coq Require Import ZArith ZifyBool ZifyN ZifyNat Lia.
+Open Scope N_scope.
+
+Theorem C16_stream_prefix_stable :
+  forall (Sz : N) (Hh : hash_fn) (chk : bool) (evs more : list read_ev),
+  is_prefix (fst (stream_out Sz Hh chk evs)) (fst (stream_out Sz Hh chk (evs ++ more))) /\
+  (snd (stream_out Sz Hh chk evs) <> SfPending ->
+   stream_out Sz Hh chk (evs ++ more) = stream_out Sz Hh chk evs).
+Proof. exact (@Streams_proofs.C16_stream_prefix_stable). Qed.
+
+Theorem C16_streams_prefix :
+  forall (Sz : N) (Hh : hash_fn) (chk : bool) (streams : list (list read_ev)) (schedule : list N) (k : N),
+  is_prefix (of_stream k (conn_run Sz Hh chk streams schedule))
+    (fst (stream_out Sz Hh chk (nth (N.to_nat k) streams []))).
+Proof. exact (@Streams_proofs.C16_streams_prefix). Qed.
+
+Theorem C16_stream_of_conn :
+  forall (Sz : N) (Hh : hash_fn) (chk : bool) (streams : list (list read_ev)) (schedule : list N) (k : N),
+  forallb (stream_safe Sz Hh chk) streams = true ->
+  of_stream k (conn_run Sz Hh chk streams schedule) =
+  stream_polls Sz Hh chk (polls_of k schedule) (nth (N.to_nat k) streams []) /\
+  fst (snd (conn_run_full Sz Hh chk streams schedule)) = COk.
+Proof. exact (@Streams_proofs.C16_stream_of_conn). Qed.
+
+Theorem C16_streams_complete :
+  forall (Sz : N) (Hh : hash_fn) (chk : bool) (streams : list (list read_ev)) (schedule : list N) (k : N),
+  forallb (stream_safe Sz Hh chk) streams = true ->
+  polled_enough k (nth (N.to_nat k) streams []) schedule = true ->
+  of_stream k (conn_run Sz Hh chk streams schedule) = fst (stream_out Sz Hh chk (nth (N.to_nat k) streams [])).
+Proof. exact (@Streams_proofs.C16_streams_complete). Qed.
+
+Theorem C16_streams_independent :
+  forall (Sz : N) (Hh : hash_fn) (chk : bool) (streams streams' : list (list read_ev)) 
+    (schedule : list N) (k : N),
+  forallb (stream_safe Sz Hh chk) streams = true ->
+  forallb (stream_safe Sz Hh chk) streams' = true ->
+  nth (N.to_nat k) streams [] = nth (N.to_nat k) streams' [] ->
+  of_stream k (conn_run Sz Hh chk streams schedule) = of_stream k (conn_run Sz Hh chk streams' schedule).
+Proof. exact (@Streams_proofs.C16_streams_independent). Qed.
+
+Theorem C16_streams_independent_refuted :
+  exists (Sz : N) (Hh : hash_fn) (streams streams' : list (list read_ev)) (schedule : list N) 
+  (k : N),
+    32 <= Sz /\
+    sha_respecting Hh /\
+    nth (N.to_nat k) streams [] = nth (N.to_nat k) streams' [] /\
+    (forall chk : bool,
+     of_stream k (conn_run Sz Hh chk streams schedule) <> of_stream k (conn_run Sz Hh chk streams' schedule)) /\
+    fst (snd (conn_run_full Sz Hh true streams' schedule)) = CStopped 0 SfPanic /\
+    fst (snd (conn_run_full Sz Hh false streams' schedule)) = CStopped 0 SfLoop /\
+    stream_safe Sz Hh true (nth 0 streams' []) = false.
+Proof. exact (@Streams_props.C16_streams_independent_refuted). Qed.
+
+Theorem stream_unsafe_only_F2 :
+  forall (Sz : N) (Hh : hash_fn) (chk : bool) (evs : list read_ev),
+  32 <= Sz ->
+  sha_respecting Hh ->
+  stream_safe Sz Hh chk evs = false ->
+  exists pre buf post : list N, ev_data evs = pre ++ buf ++ post /\ codec_overrun buf = true.
+Proof. exact (@Streams_proofs.stream_unsafe_only_F2). Qed.
+
+Theorem C16_ended_stream_costs_own_stream :
+  forall (Sz : N) (Hh : hash_fn) (chk : bool) (streams : list (list read_ev)) (schedule : list N) 
+    (j : N) (evs1 more : list read_ev) (incs : list incoming) (fin : sfinal),
+  (N.to_nat j < length streams)%nat ->
+  nth (N.to_nat j) streams [] = evs1 ++ more ->
+  stream_out Sz Hh chk evs1 = (incs, fin) ->
+  sfinal_ended fin = true ->
+  (forall evs : list read_ev, In evs streams -> evs <> evs1 ++ more -> stream_safe Sz Hh chk evs = true) ->
+  (forall k : N,
+   (N.to_nat k < length streams)%nat -> polled_enough k (nth (N.to_nat k) streams []) schedule = true) ->
+  of_stream j (conn_run Sz Hh chk streams schedule) = incs /\
+  (forall k : N,
+   k <> j ->
+   of_stream k (conn_run Sz Hh chk streams schedule) =
+   fst (stream_out Sz Hh chk (nth (N.to_nat k) streams []))).
+Proof. exact (@Streams_proofs.C16_ended_stream_costs_own_stream). Qed.
+
+Theorem C16_bad_frame_costs_own_stream :
+  forall (Sz : N) (Hh : hash_fn) (chk : bool) (streams : list (list read_ev)) (schedule : list N) 
+    (j : N) (ms : list message) (bad : list N) (evs1 : list read_ev) (extra : list N) 
+    (more : list read_ev),
+  (N.to_nat j < length streams)%nat ->
+  nth (N.to_nat j) streams [] = evs1 ++ more ->
+  live evs1 ->
+  ev_data evs1 = concat (map codec_encode ms) ++ bad ++ extra ->
+  Forall wf_message ms ->
+  Forall (size_ok write_message) ms ->
+  (forall m : message, In m ms -> exists inc : incoming, process_message Sz Hh m = PmOk inc) ->
+  undecodable chk bad \/ closing Sz Hh bad ->
+  (forall evs : list read_ev, In evs streams -> evs <> evs1 ++ more -> stream_safe Sz Hh chk evs = true) ->
+  (forall k : N,
+   (N.to_nat k < length streams)%nat -> polled_enough k (nth (N.to_nat k) streams []) schedule = true) ->
+  of_stream j (conn_run Sz Hh chk streams schedule) = yielded Sz Hh ms /\
+  (forall k : N,
+   k <> j ->
+   of_stream k (conn_run Sz Hh chk streams schedule) =
+   fst (stream_out Sz Hh chk (nth (N.to_nat k) streams []))).
+Proof. exact (@Streams_proofs.C16_bad_frame_costs_own_stream). Qed.
+
+Theorem stream_out_deliver :
+  forall (Sz : N) (Hh : hash_fn) (chk : bool) (evs : list read_ev),
+  stream_out Sz Hh chk evs =
+  (let (ms, fin) := codec_run_stream chk evs in deliver (process_message Sz Hh) ms fin).
+Proof. exact (@Streams_proofs.stream_out_deliver). Qed.
+
+Theorem stream_out_fuel :
+  forall (Sz : N) (Hh : hash_fn) (chk : bool) (evs : list read_ev), snd (stream_out Sz Hh chk evs) <> SfFuel.
+Proof. exact (@Streams_proofs.stream_out_fuel). Qed.
+
+Print Assumptions C16_stream_prefix_stable.
+Print Assumptions C16_streams_prefix.
+Print Assumptions C16_stream_of_conn.
+Print Assumptions C16_streams_complete.
+Print Assumptions C16_streams_independent.
+Print Assumptions C16_streams_independent_refuted.
+Print Assumptions stream_unsafe_only_F2.
+Print Assumptions C16_ended_stream_costs_own_stream.
+Print Assumptions C16_bad_frame_costs_own_stream.
+Print Assumptions stream_out_deliver.
+Print Assumptions stream_out_fuel.
